@@ -76,6 +76,16 @@ pub enum Op {
     /// on the other channel, then try to revoke on the first: the revocation is refused by the
     /// payment re-validation (a refusal late in the request, after the state was looked up)
     CrossPay { h: u8, swap: bool },
+    /// requests around the funding transaction of a third, outbound channel without push whose
+    /// funding outpoint is an output of a real transaction spending two wallet coins.
+    /// kind % 6: 0 validate its initial holder commitment, 5 activate it; 1 check_onchain_tx of the funding
+    /// transaction; 2 sign it; 3 / 4 sign it with a wallet derivation path of the wrong length for
+    /// the first / second input (a refusal inside the signing loop).  Signing is only requested
+    /// after a check of the transaction was accepted (the documented calling order).
+    Fund { kind: u8 },
+    /// macro: Fund 0 (validate), Fund 5 (activate), Fund 1 (check), then one signing request
+    /// (sign % 3: 0 good, 1 / 2 wrong derivation path for the first / second input)
+    FundOpen { sign: u8 },
 }
 
 /// the primitive requests a macro op stands for (None: the op is primitive)
@@ -91,6 +101,7 @@ pub fn expand_macro(op: &Op) -> Option<Vec<Op>> {
                 Op::HRevoke { ch: a, d: 0 },
             ])
         }
+        Op::FundOpen { sign } => Some(vec![Op::Fund { kind: 0 }, Op::Fund { kind: 5 }, Op::Fund { kind: 1 }, Op::Fund { kind: 2 + *sign % 3 }]),
         _ => None,
     }
 }
@@ -140,6 +151,8 @@ pub fn op_strat(refusable: bool) -> BoxedStrategy<Op> {
         1 => Just(Op::Heartbeat),
         1 => prop_oneof![Just(5u32), Just(61u32), Just(4000u32)].prop_map(|secs| Op::AdvanceTime { secs }),
         2 => (0u8..2, any::<bool>()).prop_map(|(h, swap)| Op::CrossPay { h, swap }),
+        2 => (0u8..6).prop_map(|kind| Op::Fund { kind }),
+        3 => (0u8..3).prop_map(|sign| Op::FundOpen { sign }),
     ]
     .boxed()
 }
@@ -168,7 +181,18 @@ pub struct BlockRec {
     pub prev: Headers,
 }
 
+/// the third channel and its funding transaction (see Op::Fund)
+pub struct FundChan {
+    pub chan: Chan,
+    pub tx: Transaction,
+    pub prev_outs: Vec<TxOut>,
+    pub ipaths: Vec<DerivationPath>,
+    pub opaths: Vec<DerivationPath>,
+    pub checked: bool,
+}
+
 pub struct Machine {
+    pub fund: FundChan,
     pub w: World,
     pub st: Vec<ChState>,
     pub blocks: Vec<BlockRec>,
@@ -240,7 +264,52 @@ impl Machine {
         let secp = w.secp.clone();
         let allow = Address::p2wpkh(&CompressedPublicKey(PublicKey::from_secret_key(&secp, &SecretKey::from_slice(&[9u8; 32]).unwrap())), Network::Testnet);
         let _ = w.txn(|| node.add_allowlist(&[format!("address:{}", allow)]));
-        Machine { w, st, blocks: vec![], next_dbid: 3, stub_pending: None, dead: false, onchain_ctr: 0 }
+        let fund = Self::open_fund_chan(&mut w);
+        Machine { fund, w, st, blocks: vec![], next_dbid: 3, stub_pending: None, dead: false, onchain_ctr: 0 }
+    }
+
+    /// A ready outbound channel (no push) whose funding outpoint is output 0 of a transaction
+    /// spending two wallet coins; it is kept outside `w.chans` so that the generic channel
+    /// requests do not address it.
+    fn open_fund_chan(w: &mut World) -> FundChan {
+        let mut spec = ChanSpec::basic(40);
+        spec.value_sat = VALUE;
+        spec.push_msat = 0;
+        spec.outbound = true;
+        let ci = match w.new_stub(&spec) {
+            Out::Ok(ci) => ci,
+            o => panic!("new_stub failed: {}", o.err_msg()),
+        };
+        let (fee, change) = (100u64, 50_000u64);
+        let total_in = VALUE + change + fee;
+        let (mut ipaths, mut prev_outs, mut inputs) = (vec![], vec![], vec![]);
+        for i in 0..2u32 {
+            let path: DerivationPath = vec![ChildNumber::from_normal_idx(30 + i).unwrap()].into();
+            let spk = w.node.get_native_address(&path).expect("address").script_pubkey();
+            let val = if i == 0 { total_in / 2 } else { total_in - total_in / 2 };
+            let mut txid = [0x0f; 32];
+            txid[0] = i as u8;
+            inputs.push(TxIn { previous_output: OutPoint { txid: Txid::from_byte_array(txid), vout: 0 }, script_sig: ScriptBuf::new(), sequence: Sequence::MAX, witness: Witness::new() });
+            prev_outs.push(TxOut { value: Amount::from_sat(val), script_pubkey: spk });
+            ipaths.push(path);
+        }
+        let change_path: DerivationPath = vec![ChildNumber::from_normal_idx(32).unwrap()].into();
+        let change_spk = w.node.get_native_address(&change_path).expect("address").script_pubkey();
+        let funding_spk = w.chans[ci].funding_redeemscript().to_p2wsh();
+        let tx = Transaction {
+            version: Version::TWO,
+            lock_time: LockTime::ZERO,
+            input: inputs,
+            output: vec![TxOut { value: Amount::from_sat(VALUE), script_pubkey: funding_spk }, TxOut { value: Amount::from_sat(change), script_pubkey: change_spk }],
+        };
+        w.chans[ci].setup.funding_outpoint = OutPoint { txid: tx.compute_txid(), vout: 0 };
+        match w.setup_chan(ci) {
+            Out::Ok(()) => {}
+            o => panic!("setup_chan failed: {}", o.err_msg()),
+        }
+        assert_eq!(ci + 1, w.chans.len());
+        let chan = w.chans.pop().unwrap();
+        FundChan { chan, tx, prev_outs, ipaths, opaths: vec![DerivationPath::master(), change_path], checked: false }
     }
 
     /// Make the tracker's window of remembered headers full (MAX_REORG_SIZE entries), as it is on
@@ -564,6 +633,42 @@ impl Machine {
                 let (res, _) = self.req("onchain", move || node.check_onchain_tx(&tx, &[true], &prev, &[None], &[opath]).map_err(|e| e.into()));
                 vec![res]
             }
+            Op::Fund { kind } => {
+                let id0 = self.fund.chan.id0.clone();
+                match kind % 6 {
+                    5 => {
+                        let (res, _) = self.req("fund-activate", move || node.with_channel(&id0, |ch| ch.activate_initial_commitment().map(|_| ())));
+                        vec![res]
+                    }
+                    0 => {
+                        let c0 = crate::chainpool::mk_content(false, true, VALUE, 1000, 0, vec![], vec![]);
+                        let signed = self.fund.chan.cp_sign_holder(&secp, 0, &c0, SigKind::Valid);
+                        let (res, _) = self.req("fund-validate", move || {
+                            node.with_channel(&id0, |ch| ch.validate_holder_commitment_tx_phase2(0, c0.feerate, c0.to_holder, c0.to_cp, vec![], vec![], &signed.commit_sig, &signed.htlc_sigs).map(|_| ()))
+                        });
+                        vec![res]
+                    }
+                    1 => {
+                        let (tx, prev, opaths) = (self.fund.tx.clone(), self.fund.prev_outs.clone(), self.fund.opaths.clone());
+                        let (res, ok) = self.req("fund-check", move || node.check_onchain_tx(&tx, &[true, true], &prev, &[None, None], &opaths).map_err(|e| e.into()));
+                        if ok.is_some() {
+                            self.fund.checked = true;
+                        }
+                        vec![res]
+                    }
+                    k => {
+                        if !self.fund.checked {
+                            return vec![Self::skip("fund-sign")];
+                        }
+                        let (tx, prev, mut ipaths) = (self.fund.tx.clone(), self.fund.prev_outs.clone(), self.fund.ipaths.clone());
+                        if k == 3 || k == 4 {
+                            ipaths[k as usize - 3] = vec![ChildNumber::from_normal_idx(30).unwrap(), ChildNumber::from_normal_idx(1).unwrap()].into();
+                        }
+                        let (res, _) = self.req("fund-sign", move || node.unchecked_sign_onchain_tx(&tx, &ipaths, &prev, vec![None, None]).map(|_| ()));
+                        vec![res]
+                    }
+                }
+            }
             Op::Allowlist { kind } => {
                 let a1 = Address::p2wpkh(&CompressedPublicKey(PublicKey::from_secret_key(&secp, &SecretKey::from_slice(&[0x21; 32]).unwrap())), Network::Testnet);
                 let a2 = Address::p2wpkh(&CompressedPublicKey(PublicKey::from_secret_key(&secp, &SecretKey::from_slice(&[0x22; 32]).unwrap())), Network::Testnet);
@@ -688,7 +793,7 @@ impl Machine {
                 self.w.clock.set(t);
                 vec![Self::skip("advance-time")]
             }
-            Op::CrossPay { .. } => unreachable!("macro op expanded above"),
+            Op::CrossPay { .. } | Op::FundOpen { .. } => unreachable!("macro op expanded above"),
             Op::Restart => {
                 if self.w.backup.is_some() {
                     // a restart would drop the composite persister: not modelled in backup mode
